@@ -331,6 +331,21 @@ fn t_mime(data: &[u8]) -> Outcome {
         }
     }
 }
+/// the PKCS#7 / X.509 reader behind the signature part of a V1 response (DER: nested lengths)
+fn t_pkcs7(data: &[u8]) -> Outcome {
+    use cascette_protocol::v1_mime::signature::parse_and_verify_signature;
+    let a = parse_and_verify_signature(data, Some(b"data"));
+    let _ = parse_and_verify_signature(data, None);
+    match a {
+        Ok(i) => {
+            let mut o = Outcome::ok();
+            o.class = format!("ok:signers={} certs={}", i.signer_count.min(3), i.certificate_count.min(3));
+            o
+        }
+        Err(e) => err_outcome(e),
+    }
+}
+
 /// the second V1 MIME reader of the crate (`v1_mime`: mail-parser based, MD5/SHA-256 epilogue, signature and certificate parts)
 fn t_mime_v1(data: &[u8]) -> Outcome {
     use cascette_protocol::v1_mime::{is_v1_mime_response, parse_v1_mime_response};
@@ -546,6 +561,7 @@ pub static TARGETS: &[Target] = &[
     Target { name: "patch-data", run: t_patch_data, decompresses: true },
     Target { name: "mime", run: t_mime, decompresses: false },
     Target { name: "mime-v1-module", run: t_mime_v1, decompresses: false },
+    Target { name: "pkcs7-signature", run: t_pkcs7, decompresses: false },
     Target { name: "build-info", run: t_build_info, decompresses: false },
     Target { name: "idx", run: t_idx, decompresses: false },
     Target { name: "idx-names", run: t_idx_names, decompresses: false },
